@@ -327,14 +327,24 @@ def _doc(draw, id_mode: str):
     functions = []
     for _ in range(draw(st.integers(0, 2))):
         fargs = [f"arg{j}" for j in range(draw(st.integers(1, 3)))]
-        g = EG(draw, fargs, [])
+        g = EG(draw, fargs, list(functions))  # a function may call the ones generated before it
         body = g.expr(2)
+        if functions and draw(st.booleans()):
+            callee = draw(st.sampled_from(functions))
+            body = ["+", body, ["call", callee["id"], [g.expr(1) for _ in callee["args"]]]]
+            g.feats.add("function_call")
+        if "function_call" in g.feats:
+            feats.add("function_calls_function")
         fid = next(ids)
         if fid == "lambda":
             # `lambda(...)` in libsbml's formula syntax is the lambda construct, not a call of a function with that id
             fid = next(ids)
         functions.append({"id": fid, "args": list(draw(st.permutations(fargs))), "body": body})
         feats.add("function_definition")
+    if "function_calls_function" in feats and draw(st.booleans()):
+        # SBML L3 puts no order on function definitions: list a caller before its callee
+        functions.reverse()
+        feats.add("function_listed_before_its_callee")
     state_syms = const_syms + [s["id"] for s in species]
     rules = []
     if draw(st.integers(0, 2)) == 0:
@@ -402,7 +412,15 @@ def _doc(draw, id_mode: str):
                 sides[side].append({"species": sp["id"], "stoich": sto})
         if not sides["reactants"] and not sides["products"]:
             sides["products"].append({"species": species[0]["id"], "stoich": 1})
-        reactions.append({"id": next(ids), **sides, "law": law})
+        rx_ = {"id": next(ids), **sides, "law": law}
+        if draw(st.integers(0, 3)) == 0:
+            # a parameter local to the kinetic law; half of the time it hides a global parameter of the same id
+            shadow = draw(st.booleans())
+            lid = draw(st.sampled_from(const_syms)) if shadow else f"kloc_{len(reactions)}"
+            rx_["local"] = {lid: draw(st.sampled_from([0.25, 1.5, 4.0]))}
+            rx_["law"] = ["*", ["sym", lid], law]
+            feats.add("local_parameter_hides_global" if shadow else "local_parameter")
+        reactions.append(rx_)
     if special:
         feats.add(f"ids:{id_mode}")
     return {"comps": comps, "species": species, "params": params, "functions": functions, "rules": rules, "inits": inits, "reactions": reactions, "features": sorted(feats), "special_ids": special, "comp_special": comp_special and bool(special)}
@@ -494,7 +512,12 @@ def write_doc(doc: dict, path: Path) -> None:
                 else:
                     y.setStoichiometry(float(sr["stoich"]))
                     y.setConstant(True)
-        x.createKineticLaw().setMath(libsbml.parseL3Formula(to_formula(r["law"])))
+        kl = x.createKineticLaw()
+        kl.setMath(libsbml.parseL3Formula(to_formula(r["law"])))
+        for lid, lval in (r.get("local") or {}).items():
+            lp = kl.createLocalParameter()
+            lp.setId(lid)
+            lp.setValue(lval)
     if not libsbml.writeSBMLToFile(d, str(path)):
         raise RuntimeError("libsbml could not write the document")
 
@@ -546,7 +569,7 @@ def reference(doc: dict, amounts: dict[str, float] | None, t: float):
     dn = {s["id"]: 0.0 for s in doc["species"] if not s["boundary"]}
     fluxes = {}
     for r in doc["reactions"]:
-        v = ev(r["law"], env, fns, t)
+        v = ev(r["law"], {**env, **(r.get("local") or {})}, fns, t)
         fluxes[r["id"]] = v
         for side, sign in (("reactants", -1.0), ("products", 1.0)):
             for sr in r[side]:
@@ -755,6 +778,9 @@ def _examine(case: dict, ctx) -> Outcome:
             if in_sympy_piecewise_eval(e):
                 out.bad("read-raises:RecursionError:raised-in-sympy:Piecewise.eval-does-not-terminate", error=repr(e)[:200])
                 return out
+            if isinstance(e, KeyError) and "function_listed_before_its_callee" in feats and str(e).strip("'\"") in {f_["id"] for f_ in doc["functions"]}:
+                out.bad("read-raises:KeyError:function-definition-listed-before-its-callee", error=repr(e)[:200])
+                return out
             if raised_inside_sympy_piecewise(e) and _has_xor(doc):
                 out.bad(f"read-raises:{type(e).__name__}:raised-in-sympy:Piecewise-with-xor-condition", error=repr(e)[:200])
                 return out
@@ -790,6 +816,10 @@ def _examine(case: dict, ctx) -> Outcome:
     except Exception as e:  # noqa: BLE001
         if in_sympy_piecewise_eval(e):
             out.bad("session:read-raises:RecursionError:raised-in-sympy:Piecewise.eval-does-not-terminate", error=repr(e)[:200])
+            return out
+        fids = {f_["id"] for d_ in (doc, doc2) for f_ in d_["functions"]}
+        if isinstance(e, KeyError) and str(e).strip("'\"") in fids and any("function_listed_before_its_callee" in d_["features"] for d_ in (doc, doc2)):
+            out.bad("session:read-raises:KeyError:function-definition-listed-before-its-callee", error=repr(e)[:200])
             return out
         if raised_inside_sympy_piecewise(e) and (_has_xor(doc) or _has_xor(doc2)):
             out.bad(f"session:read-raises:{type(e).__name__}:raised-in-sympy:Piecewise-with-xor-condition", error=repr(e)[:200])
@@ -831,7 +861,7 @@ def _examine(case: dict, ctx) -> Outcome:
 
 def floors(ctx) -> list[str]:
     c = []
-    for k in ["mode:plain", "mode:session", "mode:keywords", "mode:module_names", "function_definition", "rule_defined_stoichiometry", "compartment_size_not_1", "piecewise", "mathml_function", "mathml_function_of_negative_value", "logical_condition", "abs_of_exponential", "remainder"]:
+    for k in ["mode:plain", "mode:session", "mode:keywords", "mode:module_names", "function_definition", "rule_defined_stoichiometry", "compartment_size_not_1", "piecewise", "mathml_function", "mathml_function_of_negative_value", "logical_condition", "abs_of_exponential", "remainder", "function_calls_function", "function_listed_before_its_callee", "local_parameter", "local_parameter_hides_global"]:
         if ctx.classes.get(k, 0) < 5:
             c.append(f"class {k} only {ctx.classes.get(k, 0)}")
     return c
